@@ -62,6 +62,17 @@ SatisfiesOp(e, allowed) ==
   THEN [sat |-> FALSE, err |-> TRUE]
   ELSE [sat |-> DnfSat(r.node, TruthOp(Leaves(r.node), AllowedTerms(allowed))), err |-> FALSE]
 
+\* The stage boundaries a call passes (where the implementation has its verif-tagged hooks), as the
+\* pipeline above implies them: early return exactly on the error paths.
+StagesOf(fn, e, a) ==
+  IF fn = "Satisfies" THEN
+       IF ~Valid(e) THEN <<"return">>
+       ELSE IF Len(a) = 0 \/ (\E n \in DOMAIN a : ~Valid(a[n]) \/ Compound(a[n])) THEN <<"parsed", "return">>
+       ELSE <<"parsed", "allowed", "expanded", "return">>
+  ELSE IF fn = "ExtractLicenses" THEN
+       IF ~Valid(e) THEN <<"return">> ELSE <<"parsed", "expanded", "return">>
+  ELSE [n \in 1..Len(a) |-> "parsed"] \o <<"return">>
+
 \* is every Match decision of this call independent of duplicate table positions (R9)?
 SatPositionIndependent(e, allowed) ==
   LET r == Parse(e) IN
